@@ -2,7 +2,7 @@ use nom::{
     branch::alt,
     bytes::complete::{is_not, tag, tag_no_case, take_until},
     character::complete::{
-        alpha1, alphanumeric1, char, digit1, hex_digit1, multispace0, multispace1, oct_digit1,
+        alpha1, alphanumeric1, char, digit1, hex_digit1, multispace1, oct_digit1,
         one_of,
     },
     combinator::{all_consuming, cut, map, map_opt, map_res, opt, recognize},
@@ -463,7 +463,7 @@ rule!(op_0 -> Value, {
 });
 
 rule!(root(i)->Value, {
-    all_consuming(terminated(op_0,delimited(multispace0,opt(tag(";;")),multispace0)))
+    all_consuming(terminated(op_0,delimited(blank,opt(tag(";;")),blank)))
 });
 
 pub fn parse(input: &str) -> Result<Value, SyntaxError> {
